@@ -465,6 +465,13 @@ impl Srv {
                     "messages": st.messages_count, "size": st.messages_size_bytes.as_bytes_u64(), "groups": st.consumer_groups_count, "clients": st.clients_count}),
                 Err(e) => err_json(&e),
             },
+            "snapshot" => match c
+                .snapshot(iggy::snapshot::SnapshotCompression::Deflated, vec![iggy::snapshot::SystemSnapshotType::Test])
+                .await
+            {
+                Ok(sn) => json!({"r": "ok", "len": sn.0.len()}),
+                Err(e) => err_json(&e),
+            },
             "get_me" => match c.get_me().await {
                 Ok(m) => json!({"r": "ok", "uid": m.user_id, "client_id": m.client_id, "groups": m.consumer_groups_count}),
                 Err(e) => err_json(&e),
